@@ -151,6 +151,17 @@ where
         return fail(("signature-bytes-roundtrip".into(), "from_bytes(to_bytes(sig)) != sig".into()));
     }
     js!("signature", Signature<CL03<CS>>, &sig);
+    // signatures whose v has leading zero bytes / tiny / maximal components survive the byte codec as well
+    {
+        let nbytes = ((CS::ln + 7) / 8) as u32;
+        for (what, v2) in [("v = 1", Integer::from(1)), ("v with one leading zero byte", (Integer::from(1) << (8 * (nbytes - 1))) - 1u32), ("v with three leading zero bytes", (Integer::from(1) << (8 * (nbytes - 3))) - 7u32), ("v = N - 1", (&pk.N - 1u32).complete())] {
+            let sg: Signature<CL03<CS>> = serde_json::from_value(json!({"CL03": {"e": int_val(&Integer::from(5)), "s": int_val(&Integer::from(9)), "v": int_val(&v2)}})).unwrap();
+            rep.eval(ck, 1);
+            if catch(|| Signature::<CL03<CS>>::from_bytes(&sg.to_bytes()) == sg).unwrap_or(false) != true {
+                return fail(("signature-bytes-roundtrip:special-values".into(), format!("from_bytes(to_bytes(sig)) fails or differs for {}", what)));
+            }
+        }
+    }
     let com = Commitment::<CL03<CS>>::commit_with_pk(&[m.clone()], &pk, &bases, None);
     if com.randomness().significant_bits() != CS::ln {
         return fail(("commitment-randomness-wrong-length".into(), format!("{} bits, configured {}", com.randomness().significant_bits(), CS::ln)));
